@@ -3368,6 +3368,9 @@ snow3g_f9_1_buffer_vaes_avx512(const snow3g_key_schedule_t *pHandle, const void 
                                const void *pBufferIn, const uint64_t lengthInBits, void *pDigest)
 {
 #ifdef SAFE_PARAM
+        /* reset error status */
+        imb_set_errno(NULL, 0);
+
         if (pHandle == NULL) {
                 imb_set_errno(NULL, IMB_ERR_NULL_EXP_KEY);
                 return;
